@@ -700,6 +700,9 @@ func (sp *Specs) addPred(src, where string) error {
 			ps = append(ps, strings.TrimSpace(p))
 		}
 	}
+	if old, dup := sp.Preds[m[1]]; dup && old.Body.String() != e.String() {
+		return fmt.Errorf("%s: predicate %s is defined twice with different bodies (predicates are global)", where, m[1])
+	}
 	sp.Preds[m[1]] = &Pred{Name: m[1], Params: ps, Body: e}
 	return nil
 }
